@@ -273,7 +273,8 @@ int main(int argc, char** argv) {
       nlohmann::json jsonResponse;
       jsonResponse["status"] = "error";
       jsonResponse["error"] = std::string("error while updating caches: ") + e.what();
-      response = jsonResponse.dump();
+      // the message can quote the custom path: bytes that are not UTF-8 are replaced instead of making dump() throw
+      response = jsonResponse.dump(-1, ' ', false, nlohmann::json::error_handler_t::replace);
       *serverResponse << "HTTP/1.1 200 OK\r\nAccess-Control-Allow-Origin: *\r\nContent-Type: application/json; charset=utf-8\r\nContent-Length: " << response.length() << "\r\n\r\n" << response;
       return;
     }
@@ -291,7 +292,8 @@ int main(int argc, char** argv) {
       jsonResponse["status"] = "success";
       jsonResponse["cache_names"] = cacheNamesStr;
       jsonResponse["custom_cache_path"] = customCacheDirectoryPath;
-      response = jsonResponse.dump();
+      // the path comes from the query string: bytes that are not UTF-8 are replaced instead of making dump() throw (no answer would be sent)
+      response = jsonResponse.dump(-1, ' ', false, nlohmann::json::error_handler_t::replace);
     }
     else
     {
